@@ -474,3 +474,61 @@ pub fn wide_shapes() -> Vec<Skeleton> {
     }
     v
 }
+
+/// Machines whose processor supplements deviate from the generic ABI somewhere a parser could care
+/// (8-byte .hash words on 64-bit Alpha and s390x, MIPS64 r_info layout, SPARC r_info data, IA-64 /
+/// PA-RISC section types, ...) plus the common ones.
+pub const QUIRK_MACHINES: [(u16, &str); 14] = [
+    (41, "EM_ALPHA"),
+    (0x9026, "EM_ALPHA(old)"),
+    (22, "EM_S390"),
+    (8, "EM_MIPS"),
+    (21, "EM_PPC64"),
+    (50, "EM_IA_64"),
+    (15, "EM_PARISC"),
+    (43, "EM_SPARCV9"),
+    (40, "EM_ARM"),
+    (183, "EM_AARCH64"),
+    (243, "EM_RISCV"),
+    (62, "EM_X86_64"),
+    (4, "EM_68K"),
+    (0, "EM_NONE"),
+];
+
+/// The tiny-full skeletons (linker order) re-labelled for each of the quirk machines.
+pub fn machine_variants() -> Vec<Skeleton> {
+    let mut v = Vec::new();
+    for (k, sk) in tiny_skeletons().into_iter().enumerate() {
+        if k % 2 == 0 {
+            continue; // linker order only
+        }
+        for (m, mname) in QUIRK_MACHINES {
+            let mut sk = sk.clone();
+            let site = sk.sites.iter().position(|s| s.role == "ehdr.e_machine").expect("e_machine site");
+            let (off, width) = (sk.sites[site].off, sk.sites[site].width);
+            put(&mut sk.bytes, off, width, sk.enc.order, m as u64);
+            sk.sites[site].valid = m as u64;
+            sk.name = format!("{}/{}", sk.name, mname);
+            v.push(sk);
+        }
+    }
+    // 64-bit Alpha / s390x: the .hash section in its 8-byte-word form (sh_entsize 8)
+    for enc in ENCS {
+        if enc.class != Class::C64 {
+            continue;
+        }
+        for (m, mname) in [(41u16, "EM_ALPHA"), (22, "EM_S390"), (62, "EM_X86_64")] {
+            let (mut spec, truth) = tiny_spec(enc, TableOrder::Linker);
+            spec.e_machine = m;
+            let h = &mut spec.secs[idx::HASH - 1];
+            h.body = build_sysv_wide(enc.order, &truth.dyn_names, 2);
+            h.entsize = 8;
+            h.deep.clear();
+            let h = h.clone().deep_words(8, 64);
+            spec.secs[idx::HASH - 1] = h;
+            let b = build(&spec);
+            v.push(Skeleton { name: format!("tiny-full/{}/{}/8-byte .hash words", enc.name(), mname), enc, bytes: b.bytes, sites: b.sites, generated: true });
+        }
+    }
+    v
+}
